@@ -266,6 +266,8 @@ class ModelT(Node):
     def accept(self, d, strict):
         if not isinstance(d, cabc.Mapping):
             return REJ
+        if hasattr(type(d), "__missing__"):
+            return UNS   # defaultdict and the like: what d[key] gives for an absent key is the datum's own code, nothing is documented
         present, verdicts = [], []
         for f in self.fields:
             k = self.outer_key(f.name)
@@ -307,6 +309,8 @@ class LModelT(ModelT):
     def accept(self, d, strict):
         from . import layout as L  # noqa: PLC0415
 
+        if hasattr(type(d), "__missing__"):
+            return UNS
         r = L.expected_load(self.lay, self, d, strict)
         if r[0] == "ok":
             return spec.acc(r[1])
